@@ -160,7 +160,7 @@ class P(EngProp):
 
     @staticmethod
     def eq_matcher(rng, l, op):
-        v = rng.choice(egen.ATTR_POOL[l] + ["pro", "", "0"])
+        v = rng.choice(egen.ATTR_POOL.get(l, ["x"]) + ["pro", "", "0"])
         return {"l": l, "op": op, "v": v, "k": "m", "pair": "(%s,%s)" % (cbytes(B(l)), egen.sm_coq(op, v)), "sm": egen.sm_coq(op, v)}
 
 
